@@ -30,7 +30,8 @@ def shapes(tier):
     out = []
     layouts = [[[1]], [[2]], [[3]], [[2, 1]], [[2], [2]], [[3], [1]], [[3, 2]], [[1], [3]], [[4]], [[2, 2]], [[3], [2]], [[2, 1], [2]],
                [[1, 1, 1]], [[1, 1, 1], [2]], [[1, 2, 2]], [[2, 2, 2]]]
-    layouts += [[[1], [1], [1]], [[2], [1], [2]]]      # three lines for two counting threads (a share that does not divide)
+    layouts += [[[1], [1], [1]], [[2], [1], [2]]]
+    layouts += [[['W']], [['W', 2]], [['W'], ['W']], [['W'], [2]]]       # first word of a line = one 2-byte character      # three lines for two counting threads (a share that does not divide)
     if tier != 'quick':
         layouts += [[[3], [3]], [[2], [2], [2]], [[4, 2]], [[5]], [[3, 3]], [[4], [3]], [[2, 2], [2, 1]]]
     for lay in layouts:
@@ -42,7 +43,7 @@ def shapes(tier):
                           ([[2], [2], [1, 1]], [[0], [1, 2]], 1), ([[2], [3]], [[0], [1]], 2)):
         for merges in (1, 2):
             out.append({'layout': lay, 'merges': merges, 'vocab': 320, 'threads': 2, 'files': files, 'max_lines': k})
-    out.sort(key=lambda s: -(sum(sum(l) for l in s['layout']) * 2 + s['merges']))
+    out.sort(key=lambda s: -(sum(sum(wlen(x) for x in l) for l in s['layout']) * 2 + s['merges']))
     return out
 
 
@@ -70,7 +71,18 @@ def setup_machine(machine, shape, opts):
     machine.hash_ties_any = True
 
 
+def wlen(n):
+    return 2 if n == 'W' else n
+
+
 def letters(ctx, name, n):
+    if n == 'W':
+        # a word that is one 2-byte character (its bytes form pairs although the word has a single character)
+        s = ctx.in_string(name, [2])
+        if ctx.concrete is None:
+            for c in s.chars():
+                ctx.assume(z3.Or(c.v == 0xE9, c.v == 0xE4))
+        return s.chars()
     s = ctx.in_string(name, [1] * n)
     if ctx.concrete is None:
         for c in s.chars():
@@ -128,7 +140,7 @@ def run(ctx, shape, opts):
             if k:
                 chars.append(SPACE)
             chars.extend(w)
-        return StringObj(StrBuf(chars, [1] * len(chars)))
+        return StringObj(StrBuf(chars, [ctx.char_width(c) for c in chars]))
     nst = (shape['vocab'] - 256) - shape['merges']
     if shape.get('files'):
         names = []
@@ -157,7 +169,8 @@ def run(ctx, shape, opts):
     words = []
     for ws in lines:
         for k, w in enumerate(ws):
-            toks = ([[Int(0x20, 'u8')]] if k else []) + [[Int(c.v, 'u8') if isinstance(c.v, int) else Int(z3.Extract(7, 0, c.v), 'u8')] for c in w]
+            from models_core import char_utf8_bytes
+            toks = ([[Int(0x20, 'u8')]] if k else []) + [[b_] for c in w for b_ in char_utf8_bytes(ctx, c)]
             for e in words:
                 if len(e[0]) == len(toks) and all(tok_eq(ctx, a, b) for a, b in zip(e[0], toks)):
                     e[1] += 1
